@@ -325,24 +325,31 @@ def gen_escape(eu):
 
 
 def main():
+    """every table is extracted on its own: a table that cannot be read is reported as
+    `EXTRACT-ERROR <Table> ...` (its old file stays) and does not stop the others"""
     os.makedirs(GEN, exist_ok=True)
     changed = []
+    failed = []
     try:
         eu = fresh_import()
-        for name, fn in (("Prec", gen_prec), ("Escape", gen_escape)):
-            if write_if_changed(os.path.join(GEN, name + ".lean"), fn(eu)):
-                changed.append(name)
-        import extract_more
-        changed += extract_more.run(REPO, GEN, write_if_changed, lean_str, ExtractError)
-    except ExtractError as e:
-        print("EXTRACT-ERROR", e)
-        return 3
-    except Exception as e:  # import errors, attribute errors after a refactoring
+    except Exception as e:
         import traceback; traceback.print_exc()
-        print("EXTRACT-ERROR", type(e).__name__, e)
+        print("EXTRACT-ERROR ALL cannot import the package:", type(e).__name__, e)
         return 3
-    print("extract ok; changed:", changed)
-    return 0
+    import extract_more
+    jobs = [("Prec", lambda: gen_prec(eu)), ("Escape", lambda: gen_escape(eu))] + extract_more.jobs(REPO, lean_str, ExtractError)
+    for name, fn in jobs:
+        try:
+            if write_if_changed(os.path.join(GEN, name + ".lean"), fn()):
+                changed.append(name)
+        except ExtractError as e:
+            failed.append(name)
+            print(f"EXTRACT-ERROR {name} {e}")
+        except Exception as e:  # attribute errors etc. after a refactoring
+            failed.append(name)
+            print(f"EXTRACT-ERROR {name} {type(e).__name__}: {e}")
+    print("extract done; changed:", changed, "failed:", failed)
+    return 3 if failed else 0
 
 
 if __name__ == "__main__":
